@@ -22,6 +22,7 @@ RULE = (
     "EPOCH + seconds (floats within 1 us); round trip keeps (wall fields, offset) for stream/JSON/SQLite and the UTC "
     "instant to the microsecond (offset 0) for Avro; bytes written, stored values and ==/hash results are identical "
     "under all display settings. Non-trivial = non-UTC or pre-1970 or fold/gap or edge-year timestamp."
+    " Also: values that already are instances of the field type (made by replace / combine / fromisoformat ...), and wall times of year 1 / 9999 whose UTC instant lies outside years 1..9999 (stream and JSON)."
 )
 ASSUMPTIONS = [
     "UTC offsets with sub-second parts are outside the domain (CPython's isoformat/fromisoformat)",
